@@ -4375,3 +4375,507 @@ func c14r13(c *Ctx, r *Report) {
 	}
 	r.floor("divisions by a length", n, 2)
 }
+
+// c10r7: "strip the delimiter that ends the last selected field" exists twice: StripLastDelimiter (--nth,
+// --with-nth, --accept-nth) and an inline copy in replacePlaceholder ({N} placeholders). The property asks
+// that a field expression selects the same text everywhere, so the two copies have to use the same
+// primitives on the literal-delimiter path and on the regex path (round-5 mutant C10c5: TrimSuffix became
+// TrimRight in one copy; round-6 mutant C07b6: FindAllStringIndex became FindStringIndex in the other).
+func c10r7(c *Ctx, r *Report) {
+	l := c.L
+	r.rule("C10-R7", "E (sibling implementations call the same primitives)", "P1",
+		"all functions of package fzf that trim a string by a literal Delimiter.str (a strings.Trim* call fed from it) call the same set of library functions with Delimiter.str and the same set of methods on Delimiter.regex",
+		"{N} placeholders and --nth/--with-nth/--accept-nth cut the last field differently for the same delimiter")
+	type sets struct {
+		lit, re map[string]bool
+		pos      token.Pos
+	}
+	all := map[*ssa.Function]*sets{}
+	for _, fn := range l.AllFuncs() {
+		if fn.Blocks == nil || fn.Pkg != l.pkg("fzf") {
+			continue
+		}
+		s := &sets{lit: map[string]bool{}, re: map[string]bool{}}
+		fromDelim := func(v ssa.Value, field string) bool {
+			for w := range backwardSlice(v, nil, nil) {
+				if fld, base := loadedField(w); fld != nil && fld.Name() == field && base != nil {
+					if nn, ok := deref(base.Type()).(*types.Named); ok && nn.Obj().Name() == "Delimiter" {
+						return true
+					}
+				}
+			}
+			return false
+		}
+		eachInstr(fn, func(in ssa.Instruction) {
+			call, ok := in.(*ssa.Call)
+			if !ok || call.Common().IsInvoke() {
+				return
+			}
+			name := calleeName(call.Common())
+			if strings.HasPrefix(name, "strings.") {
+				for _, a := range call.Call.Args {
+					if fromDelim(a, "str") {
+						s.lit[name] = true
+						s.pos = call.Pos()
+					}
+				}
+			}
+			if strings.HasPrefix(name, "(*regexp.Regexp).") && len(call.Call.Args) > 0 && fromDelim(call.Call.Args[0], "regex") {
+				s.re[name] = true
+			}
+		})
+		trims := false
+		for k := range s.lit {
+			if strings.HasPrefix(k, "strings.Trim") {
+				trims = true
+			}
+		}
+		if trims {
+			all[rootFn(fn)] = s
+		}
+	}
+	var fns []*ssa.Function
+	for f := range all {
+		fns = append(fns, f)
+	}
+	sort.Slice(fns, func(i, j int) bool { return relName(fns[i]) < relName(fns[j]) })
+	key := func(m map[string]bool) string {
+		var ks []string
+		for k := range m {
+			ks = append(ks, k)
+		}
+		sort.Strings(ks)
+		return strings.Join(ks, ",")
+	}
+	for _, f := range fns {
+		ref := all[fns[0]]
+		s := all[f]
+		same := key(s.lit) == key(ref.lit) && key(s.re) == key(ref.re)
+		r.check(same, relName(f)+":strips the last delimiter with the common primitives", s.pos, f,
+			fmt.Sprintf("literal: %s; regex: %s", key(s.lit), key(s.re)), fmt.Sprintf("uses {%s | %s} where %s uses {%s | %s}", key(s.lit), key(s.re), relName(fns[0]), key(ref.lit), key(ref.re)))
+	}
+	r.floor("implementations of strip-the-last-delimiter", len(fns), 2)
+}
+
+// c02r11: Chars.LeadingWhitespaces / TrailingWhitespaces / Length count CHARACTERS. Offsets computed from
+// them may cut a []rune, never a string, whose indexes are bytes (round-5 mutant C02c5 sliced text.ToString()
+// with them in EqualMatch: for non-ASCII lines the compared window was shifted).
+func c02r11(c *Ctx, r *Report) {
+	l := c.L
+	r.rule("C02-R11", "E (unit agreement: character counts cut character slices)", "P1",
+		"in package algo, no slice expression over a string has a bound computed from Chars.LeadingWhitespaces, Chars.TrailingWhitespaces or Chars.Length",
+		"an equal term (^...$) on a non-ASCII line with surrounding blanks compares the wrong window: a matching line is dropped")
+	n := 0
+	isCount := func(call *ssa.Call) bool {
+		switch calleeName(call.Common()) {
+		case "(*" + modPath + "/src/util.Chars).LeadingWhitespaces", "(*" + modPath + "/src/util.Chars).TrailingWhitespaces", "(*" + modPath + "/src/util.Chars).Length":
+			return true
+		}
+		return false
+	}
+	for _, fn := range l.AllFuncs() {
+		if fn.Blocks == nil || fn.Pkg != l.pkg("algo") {
+			continue
+		}
+		k := 0
+		eachInstr(fn, func(in ssa.Instruction) {
+			sl, ok := in.(*ssa.Slice)
+			if !ok {
+				return
+			}
+			dep := false
+			for _, b := range []ssa.Value{sl.Low, sl.High} {
+				if b != nil && dependsOnCall(b, isCount) {
+					dep = true
+				}
+			}
+			if !dep {
+				return
+			}
+			n++
+			k++
+			bt, isStr := sl.X.Type().Underlying().(*types.Basic)
+			r.check(!(isStr && bt.Info()&types.IsString != 0), fmt.Sprintf("%s:slice #%d bounded by character counts cuts characters", relName(fn), k), sl.Pos(), fn,
+				"the sliced value is a []rune (or bytes of an ASCII-only text)", "a string (byte indexes) is sliced with bounds counted in characters")
+		})
+	}
+	r.floor("slices bounded by character counts", n, 1)
+}
+
+// c01r8: the anchored matchers ignore the blanks around the line unless the term itself has a blank at that
+// end: leading blanks are skipped depending on the FIRST pattern character, trailing blanks depending on the
+// LAST one, independently (round-6 mutant C01c6 made both depend on the first character in EqualMatch).
+func c01r8(c *Ctx, r *Report) {
+	l := c.L
+	r.rule("C01-R8", "A (each trim depends on its own end of the pattern)", "P1",
+		"in package algo, a call of Chars.LeadingWhitespaces is control dependent on a test of pattern[0] and of no other pattern element; a call of Chars.TrailingWhitespaces is control dependent on a test of pattern[len(pattern)-1] and of no other pattern element",
+		"`^foo\\ $` style terms (an escaped blank at one end) match lines they should not, or miss the ones they should")
+	cc := cdCache{}
+	n := 0
+	for _, fn := range l.AllFuncs() {
+		if fn.Blocks == nil || fn.Pkg != l.pkg("algo") {
+			continue
+		}
+		var pat *ssa.Parameter
+		for _, p := range fn.Params {
+			if p.Name() == "pattern" {
+				pat = p
+			}
+		}
+		if pat == nil {
+			continue
+		}
+		eachInstr(fn, func(in ssa.Instruction) {
+			call, ok := in.(*ssa.Call)
+			if !ok {
+				return
+			}
+			nm := calleeName(call.Common())
+			lead := strings.HasSuffix(nm, "Chars).LeadingWhitespaces")
+			trail := strings.HasSuffix(nm, "Chars).TrailingWhitespaces")
+			if !lead && !trail {
+				return
+			}
+			n++
+			first, last, other := false, false, false
+			for cond := range cc.of(in) {
+				for w := range backwardSlice(cond, func(*ssa.CallCommon) bool { return true }, nil) {
+					ia, ok := w.(*ssa.IndexAddr)
+					if !ok || ia.X != ssa.Value(pat) {
+						continue
+					}
+					if isConstInt(ia.Index, 0) {
+						first = true
+					} else if b, ok := ia.Index.(*ssa.BinOp); ok && b.Op == token.SUB && isConstInt(b.Y, 1) {
+						last = true
+					} else {
+						other = true
+					}
+				}
+			}
+			okc := !other && (lead && first && !last || trail && last && !first)
+			what := "pattern[len-1]"
+			if lead {
+				what = "pattern[0]"
+			}
+			r.check(okc, fmt.Sprintf("%s:%s depends on %s only", relName(fn), strings.TrimPrefix(nm[strings.LastIndex(nm, ".")+1:], ""), what), call.Pos(), fn,
+				"the trim is decided by its own end of the pattern", "the trim is decided by another element of the pattern (or by none)")
+		})
+	}
+	r.floor("blank-trimming calls of the anchored matchers", n, 4)
+}
+
+// c19r9: --walker-skip names are compared with directory names literally (base name, path, path suffix), and a
+// directory name may begin or end with a blank. Between the option value and Options.WalkerSkip the entries
+// may be split and empty ones dropped, nothing else (round-6 mutant C19b6 trimmed each entry: `--walker-skip
+// ' cache'` pruned `cache`).
+func c19r9(c *Ctx, r *Report) {
+	l := c.L
+	r.rule("C19-R9", "D (census of the transformers of a skip entry)", "P1",
+		"in the functions through which the value stored into Options.WalkerSkip passes (module functions taking and returning []string), every element appended to the result is an element of the input itself, not the result of a call on it",
+		"--walker-skip prunes a directory whose name merely resembles the entry (surrounding blanks removed)")
+	fWS := l.Field("fzf", "Options", "WalkerSkip")
+	if fWS == nil {
+		r.unest("anchors", token.NoPos, nil, "anchor Options.WalkerSkip", "cannot resolve")
+		return
+	}
+	// module functions on the way
+	var filters []*ssa.Function
+	for _, fn := range l.AllFuncs() {
+		if fn.Blocks == nil || fn.Pkg != l.pkg("fzf") {
+			continue
+		}
+		eachInstr(fn, func(in ssa.Instruction) {
+			st, ok := in.(*ssa.Store)
+			if !ok {
+				return
+			}
+			if fld, _ := fieldOf(st.Addr); fld != fWS {
+				return
+			}
+			for w := range backwardSlice(st.Val, nil, nil) {
+				if call, ok := w.(*ssa.Call); ok && call.Common().StaticCallee() != nil && call.Common().StaticCallee().Pkg == fn.Pkg && call.Common().StaticCallee().Blocks != nil {
+					filters = append(filters, call.Common().StaticCallee())
+				}
+			}
+		})
+	}
+	n := 0
+	for _, f := range filters {
+		if len(f.Params) != 1 {
+			continue
+		}
+		eachInstr(f, func(in ssa.Instruction) {
+			call, ok := in.(*ssa.Call)
+			if !ok || calleeName(call.Common()) != "builtin.append" {
+				return
+			}
+			n++
+			good := true
+			// the appended elements: a one-element slice of a local array whose element was stored
+			for w := range backwardSlice(call.Call.Args[1], nil, nil) {
+				if al, ok := w.(*ssa.Alloc); ok && al.Referrers() != nil {
+					for _, ref := range *al.Referrers() {
+						ia, ok := ref.(*ssa.IndexAddr)
+						if !ok || ia.Referrers() == nil {
+							continue
+						}
+						for _, r2 := range *ia.Referrers() {
+							if st, ok := r2.(*ssa.Store); ok && st.Addr == ssa.Value(ia) {
+								for v := range backwardSlice(st.Val, nil, nil) {
+									if c2, ok := v.(*ssa.Call); ok {
+										_ = c2
+										good = false
+									}
+								}
+							}
+						}
+					}
+				}
+			}
+			r.check(good, fmt.Sprintf("%s:append #%d keeps the entry as given", relName(f), n), call.Pos(), f, "the element of the input is appended unchanged", "the appended element is the result of a call on the entry: the skip name is rewritten")
+		})
+	}
+	r.floor("appends in the filters of the skip list", n, 1)
+}
+
+// c10r8: StripLastDelimiter removes the delimiter (and blanks) at the END of the last selected field. The
+// beginning of the text is part of the field: the recorded offsets and the displayed text start there (round-6
+// mutant C10c6 used TrimSpace, which also cut leading blanks: `--with-nth` showed a different text than the one
+// the offsets refer to).
+func c10r8(c *Ctx, r *Report) {
+	l := c.L
+	r.rule("C10-R8", "B (only suffix-removing operations)", "P1",
+		"in StripLastDelimiter, no strings function that can remove a prefix (TrimSpace, Trim, TrimLeft*, TrimPrefix, TrimFunc) is applied to the text and no slice of it has a lower bound",
+		"leading blanks of the selected field disappear from the transformed line")
+	sd := l.Fn("fzf", "StripLastDelimiter")
+	if sd == nil || len(sd.Params) < 1 {
+		r.unest("anchors", token.NoPos, nil, "anchor StripLastDelimiter", "cannot resolve")
+		return
+	}
+	der := forwardDerived(sd, []ssa.Value{sd.Params[0]}, func(*ssa.CallCommon) bool { return true })
+	n := 0
+	bad := ""
+	eachInstr(sd, func(in ssa.Instruction) {
+		switch x := in.(type) {
+		case *ssa.Call:
+			if len(x.Call.Args) == 0 || !der[x.Call.Args[0]] {
+				return
+			}
+			n++
+			switch calleeName(x.Common()) {
+			case "strings.TrimSpace", "strings.Trim", "strings.TrimLeft", "strings.TrimLeftFunc", "strings.TrimPrefix", "strings.TrimFunc":
+				bad = calleeName(x.Common()) + " at " + l.pos(x.Pos())
+			}
+		case *ssa.Slice:
+			if der[x.X] {
+				n++
+				if x.Low != nil {
+					bad = "a slice with a lower bound at " + l.pos(x.Pos())
+				}
+			}
+		}
+	})
+	r.check(bad == "", relName(sd)+":only the end of the text is cut", sd.Pos(), sd, fmt.Sprintf("%d operations on the text, all suffix-removing", n), bad+" can remove the beginning of the field")
+	r.floor("operations on the text in StripLastDelimiter", n, 2)
+}
+
+// c03r7: bonusFor decides the position bonus of a character from its class and its predecessor's class. The
+// documented model gives the word-boundary bonuses to every word character (every class above charNonWord)
+// and tries them FIRST; camelCase / letter-to-digit transitions only come into play when no boundary applies
+// (round-5 mutant C03c5 raised the threshold constant to charDelimiter; round-6 mutant C03c6 moved the
+// camelCase test in front: a digit at the start of a word got 7 instead of the boundary bonus).
+func c03r7(c *Ctx, r *Report) {
+	l := c.L
+	r.rule("C03-R7", "H + A (threshold constant and order of the two bonus families)", "P1",
+		"bonusFor contains a test equivalent to `class > charNonWord`, and every return of the value bonusCamel123 is dominated by that test",
+		"digits after a blank or a delimiter, and delimiter characters themselves, get a different bonus than the documented model gives them")
+	bf := l.Fn("algo", "bonusFor")
+	nonWord, ok1 := constOf(l, "algo", "charNonWord")
+	camel, ok2 := constOf(l, "algo", "bonusCamel123")
+	if bf == nil || !ok1 || !ok2 || len(bf.Params) != 2 {
+		r.unest("anchors", token.NoPos, nil, "anchors bonusFor / charNonWord / bonusCamel123", "cannot resolve")
+		return
+	}
+	// the word-character test: class > charNonWord, in any equivalent spelling
+	var first *ssa.If
+	eachInstr(bf, func(in ssa.Instruction) {
+		iff, ok := in.(*ssa.If)
+		if !ok || first != nil {
+			return
+		}
+		b, ok := iff.Cond.(*ssa.BinOp)
+		if !ok || b.X != ssa.Value(bf.Params[1]) {
+			return
+		}
+		k, isK := constIntVal(b.Y)
+		if !isK {
+			return
+		}
+		switch {
+		case b.Op == token.GTR && k == nonWord, b.Op == token.GEQ && k == nonWord+1, b.Op == token.LEQ && k == nonWord, b.Op == token.LSS && k == nonWord+1:
+			first = iff
+		}
+	})
+	ok := first != nil
+	r.check(ok, relName(bf)+":word characters are the classes above charNonWord", bf.Pos(), bf, "a test equivalent to class > charNonWord selects the boundary bonuses", "bonusFor has no test equivalent to `class > charNonWord`: another set of classes gets the boundary bonuses")
+	n := 0
+	eachInstr(bf, func(in ssa.Instruction) {
+		ret, ok := in.(*ssa.Return)
+		if !ok || len(ret.Results) != 1 {
+			return
+		}
+		if k, isK := constIntVal(ret.Results[0]); !isK || k != camel {
+			return
+		}
+		n++
+		r.check(ok && first != nil && first.Block().Dominates(in.Block()) && first.Block() != in.Block(), fmt.Sprintf("%s:camelCase bonus #%d comes after the boundary test", relName(bf), n), ret.Pos(), bf,
+			"dominated by the boundary test", "bonusCamel123 can be returned before the word-boundary bonuses were considered")
+	})
+	r.floor("returns of bonusCamel123", n, 1)
+}
+
+// c14r14: constrain() walks the result list from Terminal.offset to find out how many (multi-line) items fit.
+// After a query change the old offset can lie beyond the end of the new list, so it is clamped to the list
+// first; every read of the merger in constrain comes after that clamp (round-6 mutant C14b6 dropped the
+// clamp: with --wrap / multi-line items, scrolling down and then narrowing the query indexed past the list).
+func c14r14(c *Ctx, r *Report) {
+	l := c.L
+	r.rule("C14-R14", "A (clamp dominates use)", "P1",
+		"in Terminal.constrain, every call of Merger.Get is dominated by a store of a util.Constrain result into Terminal.offset",
+		"index out of range in the render goroutine after the list shrinks below the scroll offset (multi-line display)")
+	cs := l.Fn("fzf", "(*Terminal).constrain")
+	get := l.Fn("fzf", "(*Merger).Get")
+	fOff := l.Field("fzf", "Terminal", "offset")
+	if cs == nil || get == nil || fOff == nil {
+		r.unest("anchors", token.NoPos, nil, "anchors Terminal.constrain / Merger.Get / Terminal.offset", "cannot resolve")
+		return
+	}
+	var clamps []ssa.Instruction
+	eachInstr(cs, func(in ssa.Instruction) {
+		st, ok := in.(*ssa.Store)
+		if !ok {
+			return
+		}
+		if fld, _ := fieldOf(st.Addr); fld != fOff {
+			return
+		}
+		if call, ok := st.Val.(*ssa.Call); ok && calleeName(call.Common()) == modPath+"/src/util.Constrain" {
+			clamps = append(clamps, in)
+		}
+	})
+	n := 0
+	for _, f := range withClosures(cs) {
+		eachInstr(f, func(in ssa.Instruction) {
+			call, ok := in.(*ssa.Call)
+			if !ok || !callIs(call.Common(), get) {
+				return
+			}
+			n++
+			dom := false
+			// for a closure of constrain: the closure is created after the clamp
+			anchor := in
+			if f != cs {
+				eachInstr(cs, func(i2 ssa.Instruction) {
+					if mc, ok := i2.(*ssa.MakeClosure); ok && mc.Fn == ssa.Value(f) {
+						anchor = i2
+					}
+				})
+			}
+			for _, cl := range clamps {
+				if anchor.Parent() == cs && dominates(cl, anchor) {
+					dom = true
+				}
+			}
+			r.check(dom, fmt.Sprintf("%s:read #%d of the list comes after the offset clamp", relName(cs), n), call.Pos(), f, "the offset was clamped to the list first", "the list is read at positions derived from an offset that was not clamped to the new list")
+		})
+	}
+	r.floor("reads of the merger in constrain", n, 1)
+}
+
+// c19r10: inside tmux fzf relaunches itself in a popup; relative walker roots (and everything else relative)
+// must resolve against the directory the ORIGINAL process runs in, so the popup is started with `-d <cwd>` where
+// cwd comes from os.Getwd (round-6 mutant C19c6 preferred $PWD, which a caller may have left stale: the popup
+// walked another directory).
+func c19r10(c *Ctx, r *Report) {
+	l := c.L
+	r.rule("C19-R10", "D (provenance of the popup's working directory)", "P1",
+		"in runTmux, every non-constant string placed into the initial tmux argument list derives from os.Getwd and from no environment variable",
+		"with --tmux the built-in walker lists another directory than the one fzf was started in")
+	rt := l.Fn("fzf", "runTmux")
+	if rt == nil {
+		r.unest("anchors", token.NoPos, nil, "anchor runTmux", "cannot resolve")
+		return
+	}
+	n := 0
+	eachInstr(rt, func(in ssa.Instruction) {
+		st, ok := in.(*ssa.Store)
+		if !ok {
+			return
+		}
+		ia, ok := st.Addr.(*ssa.IndexAddr)
+		if !ok {
+			return
+		}
+		al, ok := ia.X.(*ssa.Alloc)
+		if !ok {
+			return
+		}
+		arr, ok := deref(al.Type()).Underlying().(*types.Array)
+		if !ok || !types.Identical(arr.Elem(), types.Typ[types.String]) {
+			return
+		}
+		if _, isK := st.Val.(*ssa.Const); isK {
+			return
+		}
+		// only the literal that starts with "display-popup"
+		isPopup := false
+		for _, ref := range *al.Referrers() {
+			if ia2, ok := ref.(*ssa.IndexAddr); ok && ia2.Referrers() != nil {
+				for _, r2 := range *ia2.Referrers() {
+					if s2, ok := r2.(*ssa.Store); ok {
+						if cs, ok := constString(s2.Val); ok && cs == "display-popup" {
+							isPopup = true
+						}
+					}
+				}
+			}
+		}
+		if !isPopup {
+			return
+		}
+		n++
+		wd := dependsOnCall(st.Val, func(c2 *ssa.Call) bool { return calleeName(c2.Common()) == "os.Getwd" })
+		env := dependsOnCall(st.Val, func(c2 *ssa.Call) bool {
+			nm := calleeName(c2.Common())
+			return nm == "os.Getenv" || nm == "os.LookupEnv"
+		})
+		r.check(wd && !env, fmt.Sprintf("%s:popup argument #%d is the working directory of this process", relName(rt), n), st.Pos(), rt, "from os.Getwd", "the popup's directory can come from the environment instead of os.Getwd")
+	})
+	r.floor("computed strings in the display-popup argument list", n, 1)
+}
+
+// c15r12: LightRenderer.Clear erases from the origin of fzf's area downwards and leaves the cursor there; the
+// renderer's record of the cursor has to say so afterwards, in full-screen mode too (there `CSI H` moves the
+// terminal's cursor but not the record). Every path through Clear therefore passes origin() (round-3 mutant
+// C15b3 and round-6 mutant C15a6 made it conditional on the non-fullscreen branch: after a full redraw the
+// next relative movement started from a stale row).
+func c15r12(c *Ctx, r *Report) {
+	l := c.L
+	r.rule("C15-R12", "A (must-pass-through)", "P1",
+		"in LightRenderer.Clear, every path from the entry to the return passes a call of LightRenderer.origin",
+		"after ctrl-l / a resize in full-screen mode the list is drawn at the wrong rows")
+	cl := l.Fn("tui", "(*LightRenderer).Clear")
+	org := l.Fn("tui", "(*LightRenderer).origin")
+	if cl == nil || org == nil {
+		r.unest("anchors", token.NoPos, nil, "anchors LightRenderer.Clear / origin", "cannot resolve")
+		return
+	}
+	entry := cl.Blocks[0].Instrs[0]
+	isOrg := func(i ssa.Instruction) bool { return staticCallee(i) == org }
+	esc := ssa.Instruction(nil)
+	if !isOrg(entry) {
+		esc = pathAvoiding(entry, isReturn, isOrg, nil)
+	}
+	r.check(esc == nil, relName(cl)+":the cursor record is reset on every path", cl.Pos(), cl, "origin() on every path", "a path through Clear does not call origin(): the cursor record keeps its old row while the terminal's cursor is at the top")
+}
